@@ -20,10 +20,13 @@
 (*                          rejected                                       *)
 (* Variant "no_restore_when_rejected" - as per_read, but a rejected read   *)
 (*                          leaves the switch as the file set it           *)
+(* Variant "params_into_particles" - as per_read, but a file's <name>_mass  *)
+(*                          / _width parameters are written into the       *)
+(*                          process-wide particle objects                  *)
 (* Variant "table_on_demand" - as per_read, but the special particle table *)
 (*                          (which also overrides K(1460)) is only loaded  *)
 (*                          by a file that names a pseudo-particle         *)
-(* TLC checks HistoryIndependent for "per_read", refutes the three others,   *)
+(* TLC checks HistoryIndependent for "per_read", refutes the four others,   *)
 (* and emits every history for replay against fresh interpreters.          *)
 (***************************************************************************)
 EXTENDS Naturals, Sequences, FiniteSets, TLC, VerifIO, Json, IOUtils
@@ -36,50 +39,58 @@ Files == {"fA", "fB", "fC", "fD", "fE", "fF"}
 \* fE carries the cartesian option and a resonance name the particle table does not know: the read is rejected.
 \* pseudo: the file names one of the pseudo-particles of the special table (KPi00, PiPi00, ...); sensitive: it names
 \* a particle whose mass and width the special table *overrides* (K(1460)), so its result shows whether that
-\* process-wide table was loaded when the file was read.
-FileOf(f) == CASE f = "fA" -> [res |-> {"r1", "r2"}, cart |-> "absent", fails |-> FALSE, pseudo |-> FALSE, sensitive |-> FALSE]
-               [] f = "fB" -> [res |-> {"r2", "r3"}, cart |-> "1", fails |-> FALSE, pseudo |-> FALSE, sensitive |-> FALSE]
-               [] f = "fC" -> [res |-> {"r4", "r6", "r7"}, cart |-> "0", fails |-> FALSE, pseudo |-> TRUE, sensitive |-> FALSE]
-               [] f = "fD" -> [res |-> {"r1", "r3", "r5", "r8"}, cart |-> "absent", fails |-> FALSE, pseudo |-> FALSE, sensitive |-> FALSE]
-               [] f = "fE" -> [res |-> {"r1"}, cart |-> "1", fails |-> TRUE, pseudo |-> FALSE, sensitive |-> FALSE]
-               [] f = "fF" -> [res |-> {"r1", "r9"}, cart |-> "absent", fails |-> FALSE, pseudo |-> FALSE, sensitive |-> TRUE]
+\* process-wide table was loaded when the file was read.  sets: resonances for which the file carries <name>_mass /
+\* <name>_width parameter lines (fD for r3); those are fit parameters of that file and nothing else.
+FileOf(f) == CASE f = "fA" -> [res |-> {"r1", "r2"}, cart |-> "absent", fails |-> FALSE, pseudo |-> FALSE, sensitive |-> FALSE, sets |-> {}]
+               [] f = "fB" -> [res |-> {"r2", "r3"}, cart |-> "1", fails |-> FALSE, pseudo |-> FALSE, sensitive |-> FALSE, sets |-> {}]
+               [] f = "fC" -> [res |-> {"r4", "r6", "r7"}, cart |-> "0", fails |-> FALSE, pseudo |-> TRUE, sensitive |-> FALSE, sets |-> {}]
+               [] f = "fD" -> [res |-> {"r1", "r3", "r5", "r8"}, cart |-> "absent", fails |-> FALSE, pseudo |-> FALSE, sensitive |-> FALSE, sets |-> {"r3"}]
+               [] f = "fE" -> [res |-> {"r1"}, cart |-> "1", fails |-> TRUE, pseudo |-> FALSE, sensitive |-> FALSE, sets |-> {}]
+               [] f = "fF" -> [res |-> {"r1", "r9"}, cart |-> "absent", fails |-> FALSE, pseudo |-> FALSE, sensitive |-> TRUE, sets |-> {}]
 
 VARIABLES allP,    \* the shared set
           cart,    \* cls -> "unset" | "F" | "T"   ("unset": look at the base class)
           tbl,     \* the special particle table has been appended to the process-wide particle table
+          pmod,    \* resonances whose (process-wide, shared) particle object had its mass / width overwritten
           hist,
           tid, l   \* trace validation only
-vars == <<allP, cart, tbl, hist, tid, l>>
-AbsView == <<allP, cart, tbl>>
+vars == <<allP, cart, tbl, pmod, hist, tid, l>>
+AbsView == <<allP, cart, tbl, pmod>>
 
 Lookup(c, cls) == IF c[cls] # "unset" THEN c[cls] ELSE IF c["base"] # "unset" THEN c["base"] ELSE "F"
 
-Init == allP = {} /\ cart = [c \in Classes |-> IF c = "base" THEN "F" ELSE "unset"] /\ tbl = FALSE /\ hist = <<>> /\ tid = 0 /\ l = 1
+Init == allP = {} /\ cart = [c \in Classes |-> IF c = "base" THEN "F" ELSE "unset"] /\ tbl = FALSE /\ pmod = {} /\ hist = <<>> /\ tid = 0 /\ l = 1
 
 \* what the call returns when made in state (a, c), and the state it leaves
 \* the table the read works with: every read loads it first thing, except in the variant that loads it on demand
 TableAfter(t, f) == IF Variant = "table_on_demand" THEN t \/ FileOf(f).pseudo ELSE TRUE
-After(a, c, t, cls, f) ==
+After(a, c, t, pm, cls, f) ==
     LET F == FileOf(f)
         c1 == IF F.cart = "absent" THEN c ELSE [c EXCEPT ![cls] = IF F.cart = "1" THEN "T" ELSE "F"]
         a0 == IF Variant = "accumulating" THEN a ELSE {}
         a1 == a0 \cup F.res
         t1 == TableAfter(t, f)
+        \* the variant that writes a file's <name>_mass / _width parameters into the shared particle objects
+        pm1 == IF Variant = "params_into_particles" THEN pm \cup F.sets ELSE pm
+        massfrom == [r \in F.res |-> IF r \in F.sets /\ Variant = "params_into_particles" THEN "own-parameter"
+                                      ELSE IF r \in pm THEN "earlier-file" ELSE "table"]
     IN IF F.fails
-       THEN [result |-> [declared |-> {"rejected"}, coupling |-> "rejected", table |-> "n/a"],
-             allP |-> a1, tbl |-> t1,
+       THEN [result |-> [declared |-> {"rejected"}, coupling |-> "rejected", table |-> "n/a", massfrom |-> <<>>],
+             allP |-> a1, tbl |-> t1, pmod |-> pm,
              \* the option has been applied when the read is rejected: it must be put back on this path too
-             cart |-> IF Variant \in {"per_read", "table_on_demand"} THEN c ELSE c1]
+             cart |-> IF Variant \in {"per_read", "table_on_demand", "params_into_particles"} THEN c ELSE c1]
        ELSE [result |-> [declared |-> a1, coupling |-> Lookup(c1, cls),
-                         table |-> IF ~F.sensitive THEN "n/a" ELSE IF t1 THEN "special" ELSE "plain"],
-             allP |-> a1, tbl |-> t1,
-             cart |-> IF Variant \in {"per_read", "no_restore_when_rejected", "table_on_demand"} THEN c ELSE c1]
+                         table |-> IF ~F.sensitive THEN "n/a" ELSE IF t1 THEN "special" ELSE "plain",
+                         massfrom |-> massfrom],
+             allP |-> a1, tbl |-> t1, pmod |-> pm1,
+             cart |-> IF Variant \in {"per_read", "no_restore_when_rejected", "table_on_demand", "params_into_particles"} THEN c ELSE c1]
 
 Call(cls, f) ==
-    LET r == After(allP, cart, tbl, cls, f) IN
+    LET r == After(allP, cart, tbl, pmod, cls, f) IN
     /\ allP' = r.allP
     /\ cart' = r.cart
     /\ tbl' = r.tbl
+    /\ pmod' = r.pmod
     /\ hist' = Append(hist, [cls |-> cls, f |-> f, result |-> r.result])
 
 GenNext ==
@@ -94,7 +105,7 @@ GenNext ==
 \*  <<"n/a">> for a plain read; coupling: "T" | "F" as the harness reads it off the numbers)
 Traces == IF EmitMode = "trace" THEN JsonDeserialize(IOEnv.TRACE_FILE) ELSE <<>>
 TraceNext ==
-    \/ /\ tid = 0 /\ tid' \in 1..Len(Traces) /\ UNCHANGED <<allP, cart, tbl, hist, l>>
+    \/ /\ tid = 0 /\ tid' \in 1..Len(Traces) /\ UNCHANGED <<allP, cart, tbl, pmod, hist, l>>
     \/ /\ tid > 0 /\ l <= Len(Traces[tid])
        /\ LET ev == Traces[tid][l] IN
           /\ Call(ev.cls, ev.f)
@@ -106,6 +117,10 @@ TraceNext ==
                     ChkD(tid, "C20:declared-resonance-variables-are-those-of-the-file-read",
                          ev.declared = <<"n/a">> \/ {ev.declared[i] : i \in DOMAIN ev.declared} = want.declared,
                          [step |-> l, call |-> <<ev.cls, ev.f>>, exp |-> want.declared, obs |-> ev.declared]),
+                    ChkD(tid, "C20:resonance-masses-come-from-the-table-not-from-an-earlier-file",
+                         \A i \in DOMAIN ev.masses : ev.masses[i][1] \notin DOMAIN want.massfrom
+                                                      \/ want.massfrom[ev.masses[i][1]] = ev.masses[i][2],
+                         [step |-> l, call |-> <<ev.cls, ev.f>>, exp |-> want.massfrom, obs |-> ev.masses]),
                     ChkD(tid, "C20:particle-parameters-do-not-depend-on-earlier-files",
                          ev.table = "n/a" \/ ev.table = want.table,
                          [step |-> l, call |-> <<ev.cls, ev.f>>, exp |-> want.table, obs |-> ev.table]),
@@ -122,7 +137,7 @@ InitC == [c \in Classes |-> IF c = "base" THEN "F" ELSE "unset"]
 \* whatever was read or converted earlier, by whichever class, a call gives what it gives in a fresh process
 HistoryIndependent ==
     \A cls \in Classes, f \in Files :
-        After(allP, cart, tbl, cls, f).result = After(InitA, InitC, FALSE, cls, f).result
+        After(allP, cart, tbl, pmod, cls, f).result = After(InitA, InitC, FALSE, {}, cls, f).result
 \* reachability companion (expected to be violated): overlapping resonance content does occur
 NeverOverlap == ~(Len(hist) >= 2 /\ FileOf(hist[1].f).res \cap FileOf(hist[2].f).res # {}
                   /\ FileOf(hist[1].f).res # FileOf(hist[2].f).res)
